@@ -327,6 +327,44 @@ def op_detect(env: Env, op: dict) -> dict:
         return {"outcome": "DETEXC:" + env.exc_class(exc)}
 
 
+def op_host(env: Env, op: dict) -> dict:
+    """the embedding application uses the same libraries between two optimize calls (legal history)"""
+    kind = op.get("kind")
+    n = int(op.get("n", 3))
+    if kind == "sympy":
+        import sympy
+
+        xs = [sympy.Dummy(f"host{i}", integer=True) for i in range(n)]
+        sympy.expand(sum(xs) ** 2)
+    elif kind == "clingo":
+        import clingo
+
+        ctl = clingo.Control(["--warn=none"], logger=lambda c, m: None)
+        ctl.add("base", [], f"p(1..{n}). q(X,Y) :- p(X), p(Y), X < Y. {{ r(X) : p(X) }}.")
+        ctl.ground([("base", [])])
+        ctl.solve()
+        prg: list = []
+        env.clingo_ast.parse_string(f"h{n}(X) :- g{n}(X,Y), not f(Y).", prg.append)
+    return {"outcome": "-"}
+
+
+def op_opt_tuple(env: Env, op: dict) -> dict:
+    """the API takes any Iterable[AST]: hand over a tuple and tuples of predicates"""
+    tgt = env.targets[op["t"]]
+    prg = tuple(env.parse(tgt["text"]))
+    ip, opp = env.decls(tgt, list(prg))
+    ip, opp = list(ip), list(opp)
+    before = env.fingerprint_args(list(prg), ip, opp)
+    res = env.call(prg, ip, opp, tgt["mask"])
+    after = env.fingerprint_args(list(prg), ip, opp)
+    before["list_id"] = after["list_id"] = 0
+    ev = dict(res)
+    ev["arg"] = env.fp_diff(before, after) or "same"
+    env.emit_text(ev, res)
+    ev.pop("_text", None)
+    return ev
+
+
 def op_gc(env: Env, op: dict) -> dict:
     """embedding process collects garbage"""
     gc.collect()
@@ -433,6 +471,8 @@ OPS = {
     "opt": op_opt,
     "opt_abort": op_opt,
     "opt_same_list": op_opt_same_list,
+    "opt_tuple": op_opt_tuple,
+    "host": op_host,
     "opt_shared": op_opt_shared,
     "detect": op_detect,
     "gc": op_gc,
